@@ -7,7 +7,7 @@ ID = "C10"
 ALGOS = ["cover_dec", "cover_23", "cover_34"]
 RULE = ("OPT from the verified oracle max_cover (exhaustive over reach(n, items), n <= 9 items; thorough: <= 11) on bounded-exhaustive "
         "multisets over {1,2,3,4,6,7} with C=6 and structured random instances; planted instances built as OPT exactly-full bins (up to "
-        "300 items: OPT = total/C by the volume bound); the published worst-case families of Csirik et al. Non-trivial: OPT >= 2. Distinct by (port, params).")
+        "300 items: OPT = total/C by the volume bound); medium-heavy families (12-65 items in [C/3, C/2) plus a few big ones, OPT >= big + (n - 2 big) // 3); the published worst-case families of Csirik et al. Non-trivial: OPT >= 2. Distinct by (port, params).")
 EXPLANATION = ("number of covered bins returned by prtpy.pack(covering.*) compared with the model (count) and judged against OPT: never more than OPT; "
                "decreasing >= (OPT-1)/2; two-thirds >= 2/3 (OPT-1); three-quarters >= 3/4 OPT - 4. Theorems: <= OPT for all three and OPT <= 2*decreasing "
                "and the two-thirds ratio 2/3 (OPT-1) are proved for the model; and the three-quarters ratio 3/4 OPT - 4 are proved for the model too: every bound of the property is a theorem.")
@@ -47,6 +47,23 @@ def units(rng, tier):
         for a in ALGOS:
             u = pack_unit(a, C, vals, rng, fmt="list", family="planted", cmp="count")
             u["opt"] = m
+            us.append(u)
+    # class-heavy families: (almost) only medium items (C/3 <= v < C/2; any three of them cover a bin, so OPT >= n // 3),
+    # optionally a few big ones (a big item + two medium ones cover: OPT >= big + (n - 2 big) // 3); no small items
+    for _ in range(30 if tier == "quick" else 300):
+        C = rng.choice([10, 12, 30, 100, 999])
+        n = rng.randint(12, 60)
+        lo, hi = -(-C // 3), (C - 1) // 2
+        if lo > hi:
+            continue
+        vals = [rng.randint(lo, hi) for _ in range(n)]
+        nbig = rng.choice([0, 0, 1, 2, 5])
+        vals += [rng.randint(-(-C // 2), C) for _ in range(nbig)]
+        opt_lower = nbig + (n - 2 * nbig) // 3          # 2 * nbig <= 10 < n
+        rng.shuffle(vals)
+        for a in ALGOS:
+            u = pack_unit(a, C, vals, rng, fmt="list", family="medium-heavy", cmp="count")
+            u["opt_lower"] = opt_lower
             us.append(u)
     # published worst-case families (Csirik, Frenk, Labbe, Zhang 1999), as in the doctests
     for k in range(1, 6 if tier == "quick" else 12):
